@@ -328,6 +328,78 @@ def _install_mask_disk_cache():
     uc.get_char_predicate_mask = get_char_predicate_mask
     uc.get_char_fn_map = get_char_fn_map
 
+    stock_caseable = relib.caseable_chars
+
+    def caseable_chars():
+        if relib._CASEABLE_CHARS is None:
+            path = os.path.join(cdir, "xh-caseable-%s.pickle" % tag)
+            try:
+                with open(path, "rb") as f:
+                    relib._CASEABLE_CHARS = pickle.load(f)
+            except Exception:
+                val = stock_caseable()
+                try:
+                    os.makedirs(cdir, exist_ok=True)
+                    tmp = "%s.%d.tmp" % (path, os.getpid())
+                    with open(tmp, "wb") as f:
+                        pickle.dump(val, f)
+                    os.replace(tmp, path)
+                except Exception:
+                    pass
+        return relib._CASEABLE_CHARS
+
+    relib.caseable_chars = caseable_chars
+
+
+def _install_constant_fork_fastpath():
+    """StateSpace.choose_possible asks the solver (and grows the path tree) even for branch
+    conditions that are constants, e.g. a regex class test on a *concrete* character of a partly
+    symbolic string.  Decide those by z3.simplify: only one side is feasible anyway, so neither
+    the set of explored paths nor exhaustion changes -- pure speed-up."""
+    import z3
+    from crosshair import statespace as ss
+    stock = ss.StateSpace.choose_possible
+
+    def choose_possible(self, expr, probability_true=None):
+        try:
+            simp = z3.simplify(expr)
+            if z3.is_true(simp):
+                return True
+            if z3.is_false(simp):
+                return False
+        except Exception:
+            pass
+        return stock(self, expr, probability_true)
+
+    ss.StateSpace.choose_possible = choose_possible
+
+
+def _install_str_eq():
+    """LazyIntSymbolicStr.__eq__ delegates to `codepoints == codepoints`, which answers False for
+    some pairs of container kinds (measured: `(s + "\\n").rstrip("\\n") == s` is False while the
+    mirrored comparison is True).  Compare length and code points element-wise instead."""
+    from crosshair.libimpl import builtinslib as bl
+
+    def __eq__(self, other):
+        with NoTracing():
+            if isinstance(other, bl.LazyIntSymbolicStr):
+                otherpoints = other._codepoints
+            elif isinstance(other, str):
+                otherpoints = [ord(ch) for ch in other]
+            else:
+                return NotImplemented
+            mypoints = self._codepoints
+        n = len(mypoints)
+        if n != len(otherpoints):
+            return False
+        res = True
+        for i in range(n):
+            res = res & (mypoints[i] == otherpoints[i])
+        return res
+
+    bl.LazyIntSymbolicStr.__eq__ = __eq__
+    bl.LazyIntSymbolicStr.__ne__ = lambda self, other: (lambda r: r if r is NotImplemented else not r)(__eq__(self, other))
+
 
 def apply():
     global _APPLIED
@@ -342,6 +414,8 @@ def apply():
     core._PATCH_REGISTRATIONS[str.__mod__] = _percent_format
     _install_format_value_repr()
     _install_fast_charmask()
+    _install_str_eq()
+    _install_constant_fork_fastpath()
     try:
         _install_mask_disk_cache()
     except Exception:
@@ -353,6 +427,8 @@ def apply():
 
 
 REPAIRS = [
+    "symbolic str equality compares length and code points element-wise (stock: container == container is wrong for some container kinds)",
+    "branch conditions that z3.simplify reduces to a constant are decided without a solver call or tree node (performance only)",
     "Unicode predicate masks (isspace, islower, ...) cached on disk instead of re-scanning all code points in every worker (performance only)",
     "CharMask.smt_matches memoised per mask via z3.substitute (performance only; identical formula)",
     "regex `$` (non-MULTILINE) modelled as (?=\\n?\\Z) instead of \\Z",
